@@ -315,6 +315,10 @@ def gen_long(ctx):
     for n in sizes:
         raw = rng.randbytes(n) if rng.random() < 0.5 else bytes(rng.choice(b"abc ") for _ in range(n))
         for ch in chains:
+            if ch[0] == "deflate" and n >= MAXC - 1024:
+                # how the deflater splits its output into feeds for the inflater decides whether one of them exceeds
+                # the inflater's per-feed limit; the verdict-level model of transformer stages does not predict that
+                continue
             data = ref_enc(raw) if ch[0] == "b64dec" else raw
             for _ in range(3):
                 parts = rand_parts(rng, len(data), around=[3, 4, 16, 48, 64, 4096, 65536])
